@@ -544,4 +544,37 @@ class Rerender(Part):
         ctx.cls("nested-edit" if nested_changed else "root-edit")
 
 
-PARTS = [RoundTrip(), Abbrev(), Rerender()]
+class OptimisedInterpreter(Part):
+    name = "optimised-interpreter"
+    rule = ("batches of 12 round-trip cases (same generator as 'roundtrip', values with shared sub-objects included) checked in a separate interpreter started with "
+            "python -O (assert statements compiled away): the same clauses must hold there; non-trivial = the batch has a value in which one container object occurs twice")
+    budget = {"quick": (8, 4), "thorough": (16, 40)}
+    chunk = 4
+
+    def strategy(self, tier):
+        return st.lists(RoundTrip().strategy(tier), min_size=12, max_size=12).map(lambda cases: {"cases": cases})
+
+    def check(self, spec, ctx):
+        import json
+        import os
+        import subprocess
+        import sys
+
+        here = os.path.dirname(os.path.dirname(os.path.abspath(__file__)))
+        p = subprocess.run([sys.executable, "-O", "-B", os.path.join(here, "optimised_c16.py")], input=json.dumps(spec["cases"]), stdout=subprocess.PIPE, stderr=subprocess.PIPE, text=True, timeout=300,
+                           env=dict(os.environ, PYTHONHASHSEED="0"))
+        if p.returncode != 0:
+            raise RuntimeError("optimised_c16.py failed: %s" % p.stderr[-600:])
+        res = json.loads(p.stdout.strip().splitlines()[-1])
+        if res["debug"]:
+            raise RuntimeError("the helper interpreter was not optimised")
+        for case, vs in zip(spec["cases"], res["results"]):
+            for clause, sig, detail in vs:
+                ctx.violation(clause, "C16/optimised/" + sig.split("/", 1)[-1], "under python -O: " + detail)
+                return
+        if '"ref"' in json.dumps(spec["cases"]):
+            ctx.nontrivial = True
+            ctx.cls("shared-sub-object")
+
+
+PARTS = [RoundTrip(), Abbrev(), Rerender(), OptimisedInterpreter()]
